@@ -407,3 +407,59 @@ package proxy
 //@ func (*modernForgeLoginRelay).relayToClient
 //@   props C13
 //@   at-call SendLoginPluginMessage as send: assert arg0 == r.clientLogin && dyntype(arg3, "proxy.forgeRelayConsumer") && cast(arg3, *forgeRelayConsumer).backendMsgID == msg.ID && cast(arg3, *forgeRelayConsumer).backendConn == backendConn && cast(arg3, *forgeRelayConsumer).relay == r
+
+// ---- C24: early plugin messages are queued (bounded), delivered once, in order ---------------------------------------
+// Configuration phase. A message goes straight to a backend that is ready (false = "caller forwards it"), and only
+// then; otherwise it is appended at the BACK of the queue as a copy, under the lock, while the caps (1024 messages,
+// 4 MiB of bodies, the new message included) hold; exceeding a cap clears the queue, latches the overflow flag and
+// disconnects the player with the lock released - nothing is buffered afterwards.
+//@ func (*clientConfigSessionHandler).enqueuePluginMessage
+//@   props C24
+//@   at-call Len as n: assert held(h.mu.Mutex) == wlocked
+//@   at-call PushBack as q: assert [queued-under-the-lock-within-the-caps] held(h.mu.Mutex) == wlocked && !h.mu.pluginMessagesOverflowed && (target == nil || h.mu.readyServer != target) && called(n) && newCount == res(n) + 1 && newCount <= 1024 && newBytes == h.mu.pluginMessagesBytes + len(msg.Data) && newBytes <= 4194304 && streq(arg1.Channel, msg.Channel) && len(arg1.Data) == len(msg.Data) && (len(msg.Data) != 0 ==> ref(arg1.Data) != ref(msg.Data)) && (forall i int :: 0 <= i && i < len(msg.Data) ==> arg1.Data[i] == msg.Data[i])
+//@   at-call Clear as clr: assert [overflow-empties-the-queue] held(h.mu.Mutex) == wlocked && (newBytes > 4194304 || newCount > 1024)
+//@   at-call Disconnect as kick: assert [overflow-disconnects-with-the-lock-released] held(h.mu.Mutex) == none && called(clr)
+//@   at-store pluginMessagesBytes: assert held(h.mu.Mutex) == wlocked && ((called(clr) && value == 0) || (called(q) && value == newBytes))
+//@   at-store pluginMessagesOverflowed: assert held(h.mu.Mutex) == wlocked && value && (newBytes > 4194304 || newCount > 1024)
+//@   ensures [caps] maxQueuedLoginPluginMessages == 1024 && maxQueuedLoginPluginMessageBytes == 4194304
+//@   ensures [only-a-ready-backend-gets-it-directly] !result ==> target != nil && !called(q) && !called(kick)
+//@   ensures [over-the-caps-disconnects] called(n) && (newBytes > 4194304 || newCount > 1024) ==> called(clr) && called(kick) && !called(q) && result
+//@   ensures [within-the-caps-is-queued] called(n) && newBytes <= 4194304 && newCount <= 1024 ==> called(q) && !called(kick) && result
+
+// Flush to the backend that became ready: inside ONE critical section the queue is drained from the front, every
+// drained message is buffered to that backend, and only then the backend is marked ready - so nothing can be queued
+// after the drain and before the flag, and a later message (sent directly) cannot overtake a queued one.
+//@ func (*clientConfigSessionHandler).flushQueuedPluginMessagesTo
+//@   props C24
+//@   loop 1: invariant held(h.mu.Mutex) == wlocked
+//@   loop 2: invariant held(h.mu.Mutex) == wlocked && rangeindex >= -1 && rangeindex < len(msgs)
+//@   at-call Len#2 as left: assert held(h.mu.Mutex) == wlocked
+//@   at-call PopFront as pop: assert [drained-from-the-front-under-the-lock] held(h.mu.Mutex) == wlocked && called(left) && res(left) != 0
+//@   at-call BufferPacket as send: assert [queued-messages-go-to-that-backend] held(h.mu.Mutex) == wlocked && called(left) && res(left) == 0
+//@   at-store readyServer: assert [ready-only-after-the-drain-in-the-same-critical-section] held(h.mu.Mutex) == wlocked && value == serverConn && called(left) && res(left) == 0
+//@   at-store pluginMessagesBytes: assert held(h.mu.Mutex) == wlocked && value == 0
+
+// Play phase (before the first join). Same caps, same overflow behaviour; the drain empties the queue from the front
+// under the lock and FlushQueuedPluginMessages buffers what it returned, then flushes.
+//@ func (*clientPlaySessionHandler).enqueueLoginPluginMessage
+//@   props C24
+//@   at-call Len as n: assert held(c.mu.RWMutex) == wlocked
+//@   at-call PushBack as q: assert [queued-under-the-lock-within-the-caps] held(c.mu.RWMutex) == wlocked && !c.mu.loginPluginMessagesOverflowed && called(n) && newCount == res(n) + 1 && newCount <= 1024 && newBytes == c.mu.loginPluginMessagesBytes + len(msg.Data) && newBytes <= 4194304 && arg1 == msg
+//@   at-call Clear as clr: assert [overflow-empties-the-queue] held(c.mu.RWMutex) == wlocked && (newBytes > 4194304 || newCount > 1024)
+//@   at-call Disconnect as kick: assert [overflow-disconnects-with-the-lock-released] held(c.mu.RWMutex) == none && called(clr)
+//@   at-store loginPluginMessagesBytes: assert held(c.mu.RWMutex) == wlocked && ((called(clr) && value == 0) || (called(q) && value == newBytes))
+//@   at-store loginPluginMessagesOverflowed: assert held(c.mu.RWMutex) == wlocked && value && (newBytes > 4194304 || newCount > 1024)
+//@   ensures [over-the-caps-disconnects] called(n) && (newBytes > 4194304 || newCount > 1024) ==> called(clr) && called(kick) && !called(q) && !result
+//@   ensures [within-the-caps-is-queued] called(n) && newBytes <= 4194304 && newCount <= 1024 ==> called(q) && !called(kick) && result
+//@   ensures [latched-overflow-buffers-nothing] !called(n) ==> !called(q) && !result
+//@ func (*clientPlaySessionHandler).drainQueuedLoginPluginMessages
+//@   props C24
+//@   loop 1: invariant held(c.mu.RWMutex) == wlocked
+//@   at-call PopFront as pop: assert [drained-from-the-front-under-the-lock] held(c.mu.RWMutex) == wlocked
+//@   at-store loginPluginMessagesBytes: assert held(c.mu.RWMutex) == wlocked && value == 0
+//@ func (*clientPlaySessionHandler).FlushQueuedPluginMessages
+//@   props C24
+//@   loop 1: invariant rangeindex >= -1 && called(drain) && rangeindex < len(res(drain))
+//@   at-call drainQueuedLoginPluginMessages as drain: assert arg0 == c
+//@   at-call BufferPacket as send: assert [what-was-drained-is-sent] called(drain) && arg0 == serverMc
+//@   at-call Flush as fl: assert called(drain) && arg0 == serverMc
